@@ -4,7 +4,11 @@
 \* The input is a flat token stream.  Every token stands for a self-delimiting byte pattern that the
 \* replay engine concretises with google.golang.org/protobuf/encoding/protowire:
 \*   "V" "F32" "F64" "L" "P"   well-formed scalar fields (varint, fixed32, fixed64, bytes, packed varints)
+\*   "P32" "P64" "P0"          well-formed packed fields: two fixed32 elements, two fixed64 elements, an empty payload
 \*   "Vover" "Tag0" "WT6"      malformed but self-delimiting: 10-byte varint with overflow, field number 0, wire type 6
+\*   "Pcut" "P32cut" "P64cut"  a packed field whose length prefix is fine but whose payload ends inside an element
+\*                             (last varint has no final byte; 4n+2 bytes of fixed32; 8n+4 bytes of fixed64): every
+\*                             byte of a packed payload must belong to a complete element
 \*   "M(" ... ")M"             a length-delimited field configured as a nested message; ")M" is the END OF THE
 \*                             PAYLOAD (a length, not a byte), so it always matches its "M("
 \*   "G("                      start-group tag (number 7)
@@ -22,15 +26,17 @@
 \*                                 so groups may nest one level deeper than messages
 EXTENDS Integers, Sequences, FiniteSets, TLC, Json
 
-CONSTANTS Family,     \* "flat" | "nested" | "chains"
+CONSTANTS Family,     \* "flat" | "nested" | "chains" | "packed"
           MaxDepths,  \* set of max_depth settings explored
           Dev, Emit
 
-OkLeaves == {"V", "F32", "F64", "L", "P"}
-BadLeaves == {"Vover", "Tag0", "WT6"}
+OkLeaves == {"V", "F32", "F64", "L", "P", "P32", "P64", "P0"}
+BadLeaves == {"Vover", "Tag0", "WT6", "Pcut", "P32cut", "P64cut"}
+\* the packed classes beyond "P" are generated in the packed family only (the other families grow with |Flat|^3)
+PackedToks == {"P32", "P64", "P0", "Pcut", "P32cut", "P64cut"}
 GroupToks == {"G(", "EG7", "EG8"}
 TailToks == {"Vtrunc", "Lover"}
-Flat == OkLeaves \cup BadLeaves \cup GroupToks
+Flat == (OkLeaves \cup BadLeaves \cup GroupToks) \ PackedToks
 
 \* ---------------------------------------------------------------- input families (each element is a token stream)
 Seqs(S, n) == UNION {[1..k -> S] : k \in 0..n}
@@ -55,7 +61,12 @@ Chain(kinds) == IF kinds = <<>> THEN <<"V">>
 ChainFam == {Chain(ks) : ks \in Seqs({"m", "g"}, 5)}
             \cup {Chain([i \in 1..k |-> "m"]) : k \in {62, 63, 64, 65, 69, 70}}
             \cup {Chain([i \in 1..k |-> "g"]) : k \in {62, 63, 64, 65, 69, 70}}
-Inputs == CASE Family = "flat" -> FlatFam [] Family = "nested" -> NestedFam [] Family = "chains" -> ChainFam
+\* packed: a packed token alone, before / after / between flat tokens, and inside a message or a group
+PackedFam == LET one == {<<t>> : t \in PackedToks}
+                 ctx == Seqs({"V", "L", "P", "G(", "EG7"}, 1)
+             IN {a \o p \o b : a \in ctx, p \in one, b \in ctx} \cup {p \o q : p \in one, q \in one}
+                \cup {Wrap(p) : p \in one} \cup {<<"V">> \o Wrap(p \o <<"V">>) : p \in one} \cup {<<"G(">> \o p \o <<"EG7">> : p \in one}
+Inputs == CASE Family = "flat" -> FlatFam [] Family = "nested" -> NestedFam [] Family = "chains" -> ChainFam [] Family = "packed" -> PackedFam
 
 \* ---------------------------------------------------------------- the machine
 VARIABLES input, maxDepth, pos, stack, out, status
